@@ -73,7 +73,7 @@ def register(J):
         J.append(Job("fold.k%d" % k, ["C01", "C12", "C20"], "harness/fold.c", sources=["lib/mergefiles.c"],
                      stubs=["stubs/h3.c"], unwind=14, tier="T2", defines=["-DK=%d" % k], tiers=Q,
                      timeout=600, mem_gb=4, nobody_ok=[".*"], functions=["merge_econf_files"],
-                     bounds="history of %d files; layers 0-2, drop-in base names {a,b}, first member main file or drop-in" % k,
+                     bounds="history of %d files; layers 0-2, drop-in base names {a,ab,b}, first member main file or drop-in" % k,
                      model="M-real",
                      statement="C01/C12: merging the history left to right, skipping a drop-in when a later member has the "
                                "same base name, the main file never skipped; C20: every input marked on_merge_delete and "
